@@ -163,13 +163,13 @@ func (w *World) Step(tr *vutil.Trace, o AbsOp, amount string, gas string) *execd
 		tx = execdrv.NewTx(types.TransactionTypeOperatorEvent, src, "", "", string(d), w.seq, salt)
 	case "Deploy":
 		tx = execdrv.NewTx(types.TransactionTypeContract, src, "", contractData(amount, initCode(Rt), gas), "", w.seq, salt)
-	case "CallForward", "CallRevert", "SelfDestruct", "CallCreate":
+	case "CallForward", "CallRevert", "SelfDestruct", "CallCreate", "EthForward", "EthStale":
 		if !w.isCon[o.B] && o.Op != "SelfDestruct" {
 			// no contract under that id yet: call goes to a plain account (pure value transfer through the EVM)
 		}
 		callee := w.addr[o.B]
 		target := w.addr[1+(o.B)%3]
-		mode := map[string]int{"CallForward": 0, "CallRevert": 1, "SelfDestruct": 2, "CallCreate": 3}[o.Op]
+		mode := map[string]int{"CallForward": 0, "CallRevert": 1, "SelfDestruct": 2, "CallCreate": 3, "EthForward": 0, "EthStale": 0}[o.Op]
 		if o.Op == "SelfDestruct" {
 			if o.V == 1 {
 				target = callee // names itself: the balance is burnt
@@ -185,6 +185,16 @@ func (w *World) Step(tr *vutil.Trace, o AbsOp, amount string, gas string) *execd
 		}
 		abi := append(word(common.FromHex(target)), word([]byte{byte(mode)})...)
 		tx = execdrv.NewTx(types.TransactionTypeContract, src, callee, contractData(amount, abi, gas), "", w.seq, salt)
+		if o.Op == "EthForward" || o.Op == "EthStale" {
+			// a wrapped Ethereum transaction (type 188) is nonce-checked: EthStale carries a nonce
+			// ahead of the state nonce and must be evicted without any effect, not even the fee
+			tx.Type = types.TransactionTypeETHTX
+			tx.Nonce = w.St.GetNonce(common.HexToAddress(src))
+			if o.Op == "EthStale" {
+				tx.Nonce += 2
+			}
+			tx.Hash = tx.GenHash()
+		}
 	case "Stake":
 		id := sha256.Sum256([]byte(salt))
 		typ, stake := 0, 400
